@@ -185,9 +185,14 @@ pub fn input_for<F: GenFam>(rng: &mut Rng, b: &mut Budget, i: usize) -> Vec<u8> 
         0 => header_guided(rng),
         1 => rng.bytes_range(0, 14),
         2 | 3 => {
-            // valid encoding + suffix
+            // valid encoding + suffix; every third one with a padded (non-minimal) remaining length
             let p = F::gen(rng, b, types[i % types.len()]);
             let mut v = enc::<F>(&p).1.unwrap_or_default();
+            if i % 3 == 0 {
+                if let Some(fr) = crate::tokens::tokenize(F::NAME, &v) {
+                    v = crate::tokens::nonminimal_rl(&fr);
+                }
+            }
             if rng.bool() {
                 v.extend(rng.bytes_range(1, 6));
             }
@@ -439,6 +444,9 @@ pub fn poll_run<F: Fam>(
 ) -> (PollObs, usize) {
     let mut rd = ScriptedReader::new(stream.clone(), script, default);
     rd.pos = rd_pos;
+    let calls = rd.calls.clone();
+    // (number of transport calls made so far, what the poll returned) after EVERY poll of the decoder
+    let mut marks: Vec<(usize, &'static str)> = Vec::new();
     let waker = noop_waker();
     let mut cx = std::task::Context::from_waker(&waker);
     let mut drops: Vec<usize> = Vec::new(); // ordinal of the Pending at which the future was dropped
@@ -453,6 +461,8 @@ pub fn poll_run<F: Fam>(
             polls += 1;
             let r = guarded(|| std::pin::Pin::new(&mut fut).poll(&mut cx));
             // the future still borrows st and rd: read the log only after the borrow ends (below)
+            marks.push((calls.load(std::sync::atomic::Ordering::Relaxed),
+                        if matches!(r, Ok(std::task::Poll::Pending)) { "pending" } else { "ready" }));
             match r {
                 Err(m) => {
                     result = jpanic(&m);
@@ -498,18 +508,31 @@ pub fn poll_run<F: Fam>(
     };
     // turn the read log into events, interleaving PollRet(pending) after every pending answer
     let mut evs = Vec::new();
+    // Read events in order; after the reads made during a poll, the PollRet of THAT poll as it really returned
+    // (a Pending return is an event whether or not the transport answered Pending)
     let mut npend = 0usize;
-    for l in &rd.log {
+    let mut mi = 0usize;
+    for (k, l) in rd.log.iter().enumerate() {
         let off: i64 = if blen > 0 && l.addr >= base && l.addr < base + blen { (l.addr - base) as i64 } else { -1 };
         evs.push(json!({"ev": "Read", "cap": l.cap, "off": off, "ans": l.ans, "n": l.n,
                         "kind": l.kind.map(io_kind_name).unwrap_or_default(), "pos": l.pos}));
-        if l.ans == "pending" {
+        while mi < marks.len() && marks[mi].0 == k + 1 && marks[mi].1 == "pending" {
             npend += 1;
             evs.push(json!({"ev": "PollRet", "ret": "pending"}));
             if drops.contains(&npend) {
                 evs.push(json!({"ev": "Drop"}));
             }
+            mi += 1;
         }
+    }
+    // Pending returns of polls that made no transport call at all
+    while mi < marks.len() && marks[mi].1 == "pending" {
+        npend += 1;
+        evs.push(json!({"ev": "PollRet", "ret": "pending"}));
+        if drops.contains(&npend) {
+            evs.push(json!({"ev": "Drop"}));
+        }
+        mi += 1;
     }
     if let Some(o) = result.as_object_mut() {
         o.remove("body_addr");
@@ -928,8 +951,11 @@ fn fault_events<F: Fam>(out: &mut Out, rng: &mut Rng, p: &F::Packet) {
         let mut encs = Vec::new();
         for k in &positions {
             let k = *k;
-            for kind in FAULT_KINDS.iter().chain([std::io::ErrorKind::UnexpectedEof].iter()) {
+            // (Interrupted: a decoder does not retry it; std's blocking write_all does, so the streaming encoder is
+            // not given that kind)
+            for kind in FAULT_KINDS.iter().chain([std::io::ErrorKind::Interrupted, std::io::ErrorKind::UnexpectedEof].iter()) {
                 let is_eof_step = *kind == std::io::ErrorKind::UnexpectedEof;
+                let interrupted = *kind == std::io::ErrorKind::Interrupted;
                 if k == n && !is_eof_step {
                     // a read fault after the last byte is never observed by a decoder that stops at the frame end
                 }
@@ -978,7 +1004,7 @@ fn fault_events<F: Fam>(out: &mut Out, rng: &mut Rng, p: &F::Packet) {
                     let a0 = a["res"]["a"].get(0).and_then(|x| x.as_str()).unwrap_or("").to_string();
                     encs.push(json!([k, if is_eof_step { "Zero".to_string() } else { io_kind_name(*kind) }, "async",
                                      a["res"]["k"].as_str().unwrap_or(""), a["res"]["e"].as_str().unwrap_or(""), a0, a["sink"]]));
-                    if k < body_len {
+                    if k < body_len && !interrupted {
                         // the streaming body encoder sees the body only: fault position relative to the body
                         let s = enc_stream::<F>(p, 1 + rng.below(5) as usize, Some((k, f)));
                         if s["k"] == "body" {
